@@ -48,6 +48,7 @@ package mdiff
 //@   ensures [C13] diff: result != nil && fresh(result) && result.Left == lhs && result.Right == rhs
 //@   ensures [C13] chunks: forall j int :: {result.Chunks[j]} 0 <= j && j < len(result.Chunks) ==> chunkOK(result.Chunks[j], lhs, rhs)
 //@   ensures [C13] described: forall j int :: {result.Chunks[j]} 0 <= j && j < len(result.Chunks) ==> chunkDesc(result.Chunks[j], lhs, rhs)
+//@   ensures [C13] owns: owns(result)
 //@   ensures [C13] ordered: forall a int, b int :: {result.Chunks[a], result.Chunks[b]} 0 <= a && b == a + 1 && b < len(result.Chunks) ==> result.Chunks[a].LEnd <= result.Chunks[b].LStart && result.Chunks[a].REnd <= result.Chunks[b].RStart
 //@   at after "es := slice.EditScript(lhs, rhs)": ghost lp = EditScript_lp
 //@   at after "es := slice.EditScript(lhs, rhs)": ghost rp = EditScript_rp
